@@ -251,8 +251,40 @@ def gen_big_cases(rng):
     return [{"setup": setup, "sql": q, "features": f, "ordered": o, "nkeys": 2 if o else 0} for q, f, o in qs]
 
 
+def gen_keyed_cases(rng):
+    """Keyed tables whose rows arrive in several INSERTs with interleaving key ranges (several row-sets
+    on the disk engine), queried in the shapes where the planner relies on the scan's key order:
+    ORDER BY the key (dropped as useless), key ranges pushed into the scan, primary-key joins (merge
+    join), GROUP BY the key (sort aggregation)."""
+    def keyed(name, nkeys, nparts):
+        ids = rng.sample(range(0, 40), nkeys)
+        rng.shuffle(ids)
+        out = ["create table %s(id int primary key, v int)" % name]
+        for part in range(nparts):
+            chunk = ids[part::nparts]
+            if chunk:
+                out.append("insert into %s values %s" % (name, ", ".join("(%d, %s)" % (i, lit(rng, "int")) for i in chunk)))
+        return out
+    setup = keyed("k1", rng.choice([9, 12, 15]), rng.choice([3, 3, 4, 5])) + keyed("k2", rng.choice([6, 9, 12]), rng.choice([2, 3, 4]))
+    lo, hi = sorted(rng.sample(range(0, 40), 2))
+    qs = [
+        ("select id, v from k1 order by id", True, 1),
+        ("select id from k1 order by id desc", True, 1),
+        ("select id, v from k1 where id >= %d order by id" % lo, True, 1),
+        ("select id, v from k1 where id > %d and id <= %d order by id" % (lo, hi), True, 1),
+        ("select id from k1 where id < %d order by id limit 3" % hi, True, 1),
+        ("select id from k1 order by id limit 4 offset 2", True, 1),
+        ("select a.id, b.v from k1 a join k2 b on a.id = b.id", False, 0),
+        ("select a.id, b.id from k1 a left join k2 b on a.id = b.id where a.id >= %d" % lo, False, 0),
+        ("select a.id, b.id from k1 a join k2 b on a.id = b.id where b.id < %d order by a.id" % hi, True, 1),
+        ("select id, count(*), sum(v) from k1 group by id", False, 0),
+        ("select id, count(*) from k1 where id >= %d group by id order by id" % lo, True, 1),
+    ]
+    return [{"setup": setup, "sql": q, "features": ["keyed-multi-rowset"], "ordered": o, "nkeys": nk} for q, o, nk in qs]
+
+
 def gen_cases(rng, n):
-    cases = gen_big_cases(rng)
+    cases = gen_big_cases(rng) + gen_keyed_cases(rng)
     for k in range(n):
         with_keyed = rng.random() < 0.3
         setup = gen_setup(rng, with_keyed)
